@@ -48,8 +48,9 @@ def cases(rng, tier):
     S0 = dec_g2(sigs[0])
     cs.append(Case("bls.Aggregate", [tbl([sigs[0], enc_g2(O.phi(S0, O.BLS_P))])]))
     cs.append(Case("bls.Aggregate", [tbl([sigs[0], enc_g2(O.phi(S0, O.BLS_P)), enc_g2(O.phi(O.phi(S0, O.BLS_P), O.BLS_P))])]))
-    from props.c11 import g2_special
-    for X in g2_special(None)[:2]:
+    from props.c11 import g2_axis_y, g2_special
+    # ... and signatures whose y is purely real / purely imaginary, small and large (the tie-break cases of the sign flag)
+    for X in g2_special(None)[:2] + g2_axis_y(1):
         cs.append(Case("bls.Aggregate", [tbl([enc_g2(X)])]))
         cs.append(Case("bls.Aggregate", [tbl([sigs[0], enc_g2(X), enc_g2(O.aff_neg(X))])]))
     cs.append(Case("bls.Aggregate", [tbl([sigs[0], sigs[1], sigs[0]])]))
@@ -131,7 +132,7 @@ def aggregate_special_pred(sk, m):
     """Aggregate on well-formed signatures that are unusual as POINTS: S together with phi(S) = (beta x, y) (same y, other x) and
     phi^2(S) (the three sum to the identity), and signatures whose x lies in the base field"""
     from py_ecc.bls import G2Basic
-    from props.c11 import g2_special
+    from props.c11 import g2_axis_y, g2_special
     S = dec_g2(G2Basic.Sign(sk, m))
     S1, S2 = O.phi(S, O.BLS_P), O.phi(O.phi(S, O.BLS_P), O.BLS_P)
     bad = []
@@ -142,7 +143,8 @@ def aggregate_special_pred(sk, m):
         got = G2Basic.Aggregate([enc_g2(X) for X in lst])
         if got != enc_g2(want):
             bad.append(f"Aggregate of {len(lst)} automorphism-related signatures != encoding of the group sum")
-    for X in g2_special(None)[:2]:
+    # ... and signatures whose y is purely real / purely imaginary, small and large (the tie-break cases of the sign flag)
+    for X in g2_special(None)[:2] + g2_axis_y(1):
         for lst in ([X], [X, O.aff_neg(X)], [S, X, O.aff_neg(X)]):
             want = None
             for Y in lst:
